@@ -90,7 +90,7 @@ def run_case(ctx, idx, args, good, failing, d):
     os.makedirs(recdir)
     tmp = os.path.join(recdir, "tmp")
     os.makedirs(tmp)
-    env = {"PATH": os.path.join(ctx.work, "path") + ":/usr/bin:/bin", "REC_OUT": recdir, "TMPDIR": tmp}
+    env = core.cover_env({"PATH": os.path.join(ctx.work, "path") + ":/usr/bin:/bin", "REC_OUT": recdir, "TMPDIR": tmp})
     rc, out, err = core.cli(os.path.join(ctx.work, "path", "recb"), args, d, env=env)
     r = {"rc": rc, "err": err[-200:], "ran": os.path.exists(os.path.join(recdir, "ran"))}
     if r["ran"]:
